@@ -20,7 +20,9 @@ RULE = (
     "workflow a -> w -> z where w's task suspends until a signal is present (variants: w has 2 tasks, w built by a "
     "builder). (1) delivery engine: one signal (persistent or transient, unique payload id) injected before EVERY step, "
     "FIFO and shuffled orders with withheld acks (the SignalStage message can be overtaken). (2) interleaving engine, "
-    "pairs SignalStage x RunTask(returns suspend), SignalStage x StartStage(w), SignalStage x SignalStage. (3) crash "
+    "pairs SignalStage x RunTask(returns suspend), SignalStage x StartStage(w), SignalStage x SignalStage. (1b) a gate that "
+    "needs TWO persistent signals, sent before every pair of steps, with distinct and with identical name + payload: every "
+    "signal resumes the task exactly once. (3) crash "
     "engine: every commit snapshot of the suspend/resume run resumed as a fresh worker. Oracles from the ledger of the "
     "suspending task and the audit log: a persistent signal's payload is seen by the task exactly once, the stage "
     "completes, the buffer is empty; without a signal the stage stays SUSPENDED durably; never more than one resume per "
@@ -58,6 +60,10 @@ def gen_cases(tier: str, seed: int) -> list[dict]:
                 cases.append({"kind": "pair", "pair": pair, "persistent": persistent, "chunk": c, "chunks": chunks, "seed": seed, "sample": 150 if tier == "quick" else 3000})
     for moment in ("before_start", "while_running", "after_suspend"):
         cases.append({"kind": "crash", "moment": moment, "seed": seed})
+    for same in (False, True):
+        for order in ("fifo", "random", "random_noack"):
+            for rep in range(1 if tier == "quick" else 5):
+                cases.append({"kind": "multi", "same": same, "order": order, "seed": seed * 100 + rep})
     return cases
 
 
@@ -165,6 +171,37 @@ def _seq(case: dict) -> dict:
         if sample is None and step == 4:
             sample = {"spec": spec["name"], "signal_before_step": step, "persistent": case["persistent"], "deliveries": [h.get("type") for h in run.handled], "task_executions": [(r["ref"], r["task"], r.get("result"), r.get("signal")) for r in run.ledger if r["ref"] == "w"], "final": summarize(run)}
     return {"violations": _uniq(violations), "obs": dict(obs), "keys": sorted(keys), "sample": sample}
+
+
+def _multi(case: dict) -> dict:
+    """A gate that needs TWO signals, both persistent, sent at every pair of steps (before the stage starts,
+    while its task runs, after it suspended) - with distinct payloads and with IDENTICAL name and payload
+    (two approvals that look the same are still two signals): every signal resumes the task exactly once."""
+    spec = {"name": "suspend2", "confluent": True, "stages": [specs.st("a"), specs.st("w", ["a"], [{"kind": "suspend", "waits": 2, "out": ["w_o"]}]), specs.st("z", ["w"])]}
+    rng = random.Random(case["seed"] * 211 + (1 if case["same"] else 0))
+    order = "fifo" if case["order"] == "fifo" else "random"
+    obs: Counter = Counter()
+    keys: set = set()
+    violations = []
+    nsteps = 14
+    for s1 in range(0, nsteps, 2):
+        for s2 in range(s1, nsteps, 3):
+            d1 = {"id": "same"} if case["same"] else {"id": "A"}
+            d2 = {"id": "same"} if case["same"] else {"id": "B"}
+            inj = [{"at": s1, "do": "signal", "ref": "w", "persistent": True, "data": d1, "name": "approve"}, {"at": s2, "do": "signal", "ref": "w", "persistent": True, "data": d2, "name": "approve"}]
+            run = delivery_run(spec, seed=rng.randrange(1 << 30), order=order, noack_p=0.2 if case["order"] == "random_noack" else 0.0, injections=inj, max_steps=260)
+            obs["evaluations"] += 1
+            obs["two_signal_runs"] += 1
+            recs = [r for r in run.ledger if r["ref"] == "w"]
+            st_w = run.state["stages"]["w"]
+            buf = st_w["context"].get("_buffered_signals") or []
+            keys.add(f"multi:{case['same']}:{case['order']}:{min(s1, 9)}:{min(s2, 9)}")
+            if not run.quiescent:
+                continue
+            ok = run.state["wf"] == "SUCCEEDED" and st_w["status"] == "SUCCEEDED" and len(recs) == 3 and not buf
+            if not ok:
+                violations.append(viol("C18/persistent-signal-lost:two-signals-one-gate" + (":identical-payloads" if case["same"] else ""), f"two persistent signals {d1} / {d2} sent before steps {s1} / {s2}: task executed {len(recs)} times (expected 1 + 2 resumes), stage {st_w['status']}, workflow {run.state['wf']}, buffer {buf}"))
+    return {"violations": _uniq(violations), "obs": dict(obs), "keys": sorted(keys)}
 
 
 def _cut(pair: str, persistent: bool):
@@ -291,6 +328,8 @@ def _uniq(vs: list[dict]) -> list[dict]:
 
 
 def run_case(case: dict) -> dict:
+    if case.get("kind") == "multi":
+        return _multi(case)
     if case["kind"] == "seq":
         return _seq(case)
     if case["kind"] == "pair":
